@@ -142,6 +142,11 @@ def usolution(posx_in, tau_in, epsilon_in):
     else:
         for i in range(100):
             jwant = i + 1
+            if gamma_one_root(eta_lo) * gamma_one_root(eta_hi) > 0.0:
+                # the phase has no further zero (posx close to the surface):
+                # integrate what is left in one piece
+                sum1 = sum1 + quad(upart1, eta_lo, eta_hi, epsabs=eps)[0]
+                break
             eta_int = brentq(gamma_one_root, eta_lo, eta_hi, xtol=tol, maxiter=100)
             xi1 = quad(upart1, eta_lo, eta_int, epsabs=eps)[0]
             sum1  = sum1 + xi1
@@ -161,6 +166,9 @@ def usolution(posx_in, tau_in, epsilon_in):
     else:
         for i in range(100):
             jwant = i + 1
+            if gamma_two_root(eta_lo) * gamma_two_root(eta_hi) > 0.0:
+                sum2 = sum2 + quad(upart2, eta_lo, eta_hi, epsabs=eps)[0]
+                break
             eta_int = brentq(gamma_two_root, eta_lo, eta_hi, xtol=tol, maxiter=100)
             xi2 = quad(upart2, eta_int, eta_hi, epsabs=eps)[0]
             sum2  = sum2 + xi2
@@ -210,6 +218,9 @@ def vsolution(posx_in, tau_in, epsilon_in, uans):
     else:
         for i in range(100):
             jwant = i + 1
+            if gamma_three_root(eta_lo) * gamma_three_root(eta_hi) > 0.0:
+                sum1 = sum1 + quad(vpart1, eta_lo, eta_hi, epsabs=eps)[0]
+                break
             eta_int = brentq(gamma_three_root, eta_lo, eta_hi, xtol=tol, maxiter=100)
             xi1 = quad(vpart1, eta_int, eta_hi, epsabs=eps)[0]
             sum1 = sum1 + xi1
@@ -229,6 +240,9 @@ def vsolution(posx_in, tau_in, epsilon_in, uans):
     else:
         for i in range(100):
             jwant = i + 1
+            if gamma_two_root(eta_lo) * gamma_two_root(eta_hi) > 0.0:
+                sum2 = sum2 + quad(vpart2, eta_lo, eta_hi, epsabs=eps)[0]
+                break
             eta_int = brentq(gamma_two_root, eta_lo, eta_hi, xtol=tol, maxiter=100)
             xi2 = quad(vpart2, eta_int, eta_hi, epsabs=eps)[0]
             sum2 = sum2 + xi2
